@@ -1,5 +1,5 @@
-\* exhaustive (quick): histories of <= 2 cycles x 0..2 burn steps from (0,0), two stacks, coupling off / on, all single failures
-CONSTANTS MaxCyc = 2  MaxBurn = 2  Tights = {FALSE, TRUE}  WithStarts = FALSE  MaxLevel = 400
+\* exhaustive (quick): histories of <= 2 cycles x 0..1 burn steps from (0,0), two stacks, coupling off / on, all single failures
+CONSTANTS MaxCyc = 2  MaxBurn = 1  Tights = {FALSE, TRUE}  WithStarts = FALSE  MaxLevel = 400
 CONSTANTS RestartFrom = {"completed", "aborted"}  Phase2Fails = TRUE
 CONSTANT Configs <- NoConfigs
 INIT RInit
